@@ -60,7 +60,7 @@ CONTRACTS = [
         cells={"left_map": "refmap", "right_map": "valmap", "left_id": "cell:int", "right_id": "cell:int", "group.disposable": "seq"},
         # the two maps of the real code ARE the open windows and the retained right elements; ids are handed out in order
         inv="same(left_map, s.windows) and same(right_map, s.held) and left_id[0] == s.nl and right_id[0] == s.nr",
-        ends_with_source=False,
+        ends_with_source=False, runner=("winrun.py", "group_join"),
         # after the end the maps are only changed by expiries: pending durations still find their entries
         inv_done="True", done_quiet=False,
         families={
